@@ -501,7 +501,7 @@ CLAUSES = [
            what="each ND primitive (T, expand_dims, squeeze, swapaxes, roll, a[idx], take, slice, a[idx]=v, reshape, flatten, stack, "
                 "concatenate, broadcasting ufunc, batched @, expand_unit_axes, squeeze_excess) vs numpy on random shapes of rank <= 5: exact equality"),
     Clause("matrix_product_corr", "corr", gen_mp, run_mp, judge_mp, lean=lean_mp, site="utils.matrix_product",
-           budget={"quick": 1800, "thorough": 40 * 40 * 9},
+           budget={"quick": 900, "thorough": 40 * 40 * 9},
            what="utils.matrix_product vs Lean matrixProduct entry by entry: unit ranks (1,2),(2,2),(3,2) x 3 broadcast modes x outer shapes of rank 0-3 "
                 "over sizes {1,2,3} (all 1600 ordered pairs in thorough), including non-broadcastable pairs (both sides must refuse)"),
     Clause("apply_bilinear_corr", "corr", gen_bil, run_bil, judge_bil, lean=lean_bil, site="utils.apply_bilinear",
